@@ -14,6 +14,7 @@ sys.stdout = devnull
 os.dup2(devnull.fileno(), 2)
 
 import asynq
+from asynq.batching import BatchBase, BatchItemBase
 from asynq.futures import ConstFuture
 from asynq.generator import END_OF_GENERATOR, Value, async_generator, list_of_generator, take_first
 
@@ -30,8 +31,37 @@ def deeper(x):
     return z
 
 
-def awaited(i):
-    """the future an 'A' element awaits: a task, a task with awaits of its own, or a constant future"""
+class RB(BatchBase):
+    def __init__(self, st):
+        BatchBase.__init__(self)
+        self.st = st
+
+    def _try_switch_active_batch(self):
+        if self.st.get("batch") is self:
+            self.st["batch"] = None
+
+    def _flush(self):
+        for it in self.items:
+            if not it.is_computed():
+                it.set_value(it.v)
+
+
+class RI(BatchItemBase):
+    """a batch item: whoever awaits it stays suspended until the scheduler has nothing else to run"""
+
+    def __init__(self, st, v):
+        b = st.get("batch")
+        if b is None:
+            b = st["batch"] = RB(st)
+        BatchItemBase.__init__(self, b)
+        self.v = v
+
+
+def awaited(i, st=None):
+    """the future an 'A' element awaits: a task, a task with awaits of its own, or a constant future;
+    in histories that use "start" always a batch item"""
+    if st is not None and st.get("batchy"):
+        return RI(st, i)
     if i % 3 == 0:
         return leaf.asynq(i)
     if i % 3 == 1:
@@ -60,7 +90,7 @@ def make(body, shape, st):
         for i, e in enumerate(body):
             if e == "A":
                 st["pulls"] += 1
-                got = yield awaited(i)
+                got = yield awaited(i, st)
                 if got != i:
                     st["bad_await"] = (i, got)
             elif e == "V":
@@ -89,8 +119,65 @@ def run_history(case):
     g = make(case["body"], case.get("inner", ""), st)
     last = None
     got = []
-    for o in case["h"]:
+    ops = case["h"]
+    st["batchy"] = any(o["op"] == "start" for o in ops)
+
+    def do_next():
+        try:
+            f = next(g)
+            return f, ["fut", 1 if f.is_computed() else 0]
+        except StopIteration:
+            return None, ["stop"]
+        except RuntimeError:
+            return None, ["runtime"]
+        except Exception as e:
+            return None, ["raised", type(e).__name__]
+
+    j = 0
+    while j < len(ops):
+        o = ops[j]
+        j += 1
         op = o["op"]
+        if op == "start":
+            # the future returned last is yielded together with a sibling task; it runs first, gets as far as the
+            # body's await (a batch item) and is suspended; the sibling then executes the history's next() calls up
+            # to the compute (= let the scheduler flush and the future finish)
+            block = []
+            while j < len(ops) and ops[j]["op"] == "next":
+                block.append(ops[j])
+                j += 1
+            has_compute = j < len(ops) and ops[j]["op"] == "compute"
+            if has_compute:
+                j += 1
+            sib = []
+            keep = {"last": last}
+
+            @asynq.asynq()
+            def sibling():
+                for _ in block:
+                    f, r = do_next()
+                    if f is not None:
+                        keep["last"] = f
+                    sib.append(r)
+
+            @asynq.asynq()
+            def driver(fut):
+                v, _ = yield fut, sibling.asynq()
+                return v
+
+            try:
+                v = driver(last)
+                r = ["end"] if v is END_OF_GENERATOR else ["val", [encv(v)]]
+            except Exception as e:
+                r = ["raised", type(e).__name__]
+            while len(sib) < len(block):
+                sib.append(["not_run"])
+            got.append(["ok"])
+            got.extend(sib)
+            if has_compute:
+                got.append(r)
+            last = keep["last"]
+            continue
         if op == "next":
             try:
                 last = next(g)
@@ -125,6 +212,8 @@ def run_history(case):
 
 
 def compare(ops, got):
+    if len(got) != len(ops):
+        return [0]
     """indexes of the operations whose real result is not one the spec allows"""
     diff = []
     tail = None        # what the real generator did at the next() issued with no Value ahead
@@ -132,7 +221,7 @@ def compare(ops, got):
     for j, (o, g) in enumerate(zip(ops, got)):
         k, vs, p = o["res"]["k"], o["res"]["vs"], o["res"]["p"]
         ok = True
-        if k == "any":
+        if k == "any" or k == "ok":
             pass
         elif k in ("stop", "runtime"):
             ok = g == [k]
